@@ -64,7 +64,7 @@ func (k Keeper) ApplyValidatorChanges(
 				val.Power = change.Power
 				// guard for errors within the hooks.
 				cc, writeFunc := ctx.CacheContext()
-				k.SetExocoreValidator(ctx, val)
+				k.SetExocoreValidator(cc, val)
 				// sdk slashing.AfterValidatorCreated stores the lookup from cons address to
 				// cons pub key. it loads the validator from `valAddr` (operator address)
 				// via stakingkeeeper.Validator(ctx, valAddr)
